@@ -106,6 +106,8 @@ pub fn scope(name: &str) -> Option<Scope> {
         "S3fq9" => Scope { name: "S3fq9", n: 3, r: 1, k: 1, fin: true, fin_min: true, wrap: false, copyroot: false, upgrade_ops: false, classes: 0, max_depth: 9, ..BASE },
         "S2bf" => Scope { name: "S2bf", n: 2, r: 1, k: 1, fin: true, wrap: false, copyroot: false, barrier: true, ..BASE },
         "S2fm" => Scope { name: "S2fm", n: 2, r: 1, k: 1, fin: true, wrap: false, copyroot: false, maproot: true, ..BASE },
+        // finalization after a caught panic in a trace call (of an object or of the root itself)
+        "S2fp" => Scope { name: "S2fp", n: 2, r: 2, k: 1, fin: true, fin_min: true, faults: true, wrap: false, copyroot: false, upgrade_ops: false, ..BASE },
         "S2f1" => Scope { name: "S2f1", fin: true, wrap: false, r: 1, k: 1, ..BASE },
         // chains of 3 / 4 objects, one root slot, one strong slot, no weak
         "S3h" => Scope { name: "S3h", n: 3, r: 2, k: 1, weak: false, upgrade_ops: false, copyroot: false, wrap: false, holding: true, ..BASE },
@@ -121,6 +123,9 @@ pub fn scope(name: &str) -> Option<Scope> {
         "S2bcw" => Scope { name: "S2bcw", n: 3, r: 1, k: 1, weak: true, upgrade_ops: false, copyroot: false, graph: false, wrap: false, cells: true, ..BASE },
         "S3bc" => Scope { name: "S3bc", n: 3, r: 1, k: 1, weak: true, copyroot: false, wrap: false, cells: true, ..BASE },
         "S2b2" => Scope { name: "S2b2", n: 2, r: 1, k: 2, copyroot: false, wrap: false, barrier: true, barrier2: true, ..BASE },
+        "S3bw" => Scope { name: "S3bw", n: 3, r: 1, k: 1, barrier: true, copyroot: false, upgrade_ops: false, wrap: false, ..BASE },
+        // weak pointers changing holders under the explicit weak barriers: two root slots, no strong edges
+        "S3bww" => Scope { name: "S3bww", n: 3, r: 2, k: 0, graph: false, barrier: true, copyroot: false, upgrade_ops: false, wrap: false, ..BASE },
         "S3b" => Scope { name: "S3b", n: 3, r: 1, k: 1, barrier: true, ..BASE },
         // faults
         "S2p" => Scope { name: "S2p", n: 2, r: 2, k: 1, faults: true, pcallbacks: true, ..BASE },
@@ -145,7 +150,7 @@ pub fn scope(name: &str) -> Option<Scope> {
         "S3mw" => Scope { name: "S3mw", n: 3, r: 1, k: 1, copyroot: false, leaf: true, metrics_canon: true, ..BASE },
         "S3pw" => Scope { name: "S3pw", n: 3, r: 1, k: 1, copyroot: false, faults: true, pcallbacks: true, ..BASE },
         "S2p2" => Scope { name: "S2p2", n: 2, r: 2, k: 2, faults: true, pcallbacks: true, ..BASE },
-        "S2q" => Scope { name: "S2q", n: 2, r: 1, k: 1, classes: 0b111, fin: true, born_canon: true, ..BASE },
+        "S2q" => Scope { name: "S2q", n: 2, r: 1, k: 1, classes: 0b111, fin: true, born_canon: true, maproot: true, ..BASE },
         // 3 objects + finalization
         "S3f" => Scope { name: "S3f", n: 3, r: 1, k: 1, fin: true, wrap: false, ..BASE },
         // everything, depth bounded
@@ -162,11 +167,22 @@ pub fn scope(name: &str) -> Option<Scope> {
 
 /// Which properties own an oracle (a violation of the oracle is a violation of each owner).
 pub fn owners(oracle: &str) -> &'static [&'static str] {
+    // (C06: "a GcWeak keeps the target queryable" after adoption through any barrier path)
+    if oracle == "c05.weak_block_released" {
+        return &["C05", "C06", "C11", "C20"];
+    }
+    // (C10: "total_gc_count ... is zero after the arena is dropped")
+    if oracle == "c04.count_after_drop" {
+        return &["C04", "C10", "C11", "C14", "C20"];
+    }
     let head = oracle.split('.').next().unwrap_or("");
     match head {
         // a strongly reachable value destructed / released / unreadable
         // (C08: "sweeping begins only from a fully marked arena" - its observable consequence is exactly this)
         "safe" => &["C01", "C05", "C06", "C07", "C08", "C11", "C13", "C14", "C19", "C20"],
+        // the root value's own destructor runs while everything it points to is still intact
+        // (C01: not destructed or released while strongly reachable from the root; C13: every safe program satisfies C01)
+        "rootdrop" => &["C01", "C13"],
         "once" => &["C04", "C11", "C20"],
         "alloc" => &["C04", "C11", "C20"],
         "api" => &["C01", "C02", "C03", "C04", "C05", "C06", "C07", "C08", "C10", "C11", "C14", "C20"],
